@@ -246,9 +246,36 @@ def gen(prop, stream, tier, avoid):
             ops.append({"op": "matrix_identity", "n": rng.pick(sizes)})
         elif r == "reject":
             n = rng.pick(sizes)
-            a = _ints(rng, n, n + 1)
-            ops.append({"op": "reject", "routine": rng.pick(["lu_solve", "lu_decomposition", "matrix_determinant"]),
-                        "A": a, "b": _rhs(rng, n), "n": n})
+            how = rng.pick(["nonsquare", "singular", "singular_zero_column", "needs_pivot", "rhs_mismatch", "mutate_result"])
+            if how == "nonsquare":
+                a, b = _ints(rng, n, n + 1), _rhs(rng, n)
+            elif how == "singular":
+                a = _ints(rng, max(n, 2), max(n, 2))
+                a[-1] = [2 * v for v in a[0]]          # last row is a multiple of the first: exactly singular
+                b = _rhs(rng, len(a))
+            elif how == "singular_zero_column":
+                m_ = max(n, 3)
+                a = _dominant(rng, m_)
+                c_ = rng.randrange(m_ - 1)              # not the last column: the breakdown happens in the middle of the sweeps
+                for row in a:
+                    row[c_] = 0
+                b = _rhs(rng, m_)
+            elif how == "needs_pivot":
+                # non-singular, but plain (unpivoted) elimination meets a zero pivot before the last column: the plain
+                # solver may legitimately raise half way through - later calls must not notice
+                m_ = max(n, 3)
+                a = _dominant(rng, m_)
+                i_ = rng.randrange(m_ - 1)
+                a[i_], a[i_ + 1] = a[i_ + 1], a[i_]
+                a[i_][i_] = 0
+                b = _rhs(rng, m_)
+            elif how == "rhs_mismatch":
+                a, b = _dominant(rng, n), _rhs(rng, n + 1)
+            else:
+                a, b = _dominant(rng, n), _rhs(rng, n)
+            ops.append({"op": "reject", "how": how,
+                        "routine": rng.pick(["lu_solve", "lu_decomposition", "matrix_determinant", "lu_factor", "matrix_inverse", "matrix_pivot"]),
+                        "A": a, "b": b, "n": n})
         else:
             h = rng.pick(["vector_dot", "vector_cross", "vector_normalize", "vector_magnitude", "matrix_transpose",
                           "matrix_multiply", "binomial_coefficient", "binomial_coefficient", "linspace"])
@@ -425,17 +452,40 @@ def run(script, ctx):
             ctx.ops_executed += 1
             continue
         if k == "reject":
+            import copy as _copy
+            A_, b_ = _copy.deepcopy(op["A"]), _copy.deepcopy(op["b"])
             try:
-                if op["routine"] == "lu_solve":
-                    L.lu_solve(op["A"], op["b"])
-                elif op["routine"] == "lu_decomposition":
-                    L.lu_decomposition(op["A"])
+                rt = op["routine"]
+                if rt == "lu_solve":
+                    out_ = L.lu_solve(A_, b_)
+                elif rt == "lu_factor":
+                    out_ = L.lu_factor(A_, b_)
+                elif rt == "lu_decomposition":
+                    out_ = L.lu_decomposition(A_)
+                elif rt == "matrix_inverse":
+                    out_ = L.matrix_inverse(A_)
+                elif rt == "matrix_pivot":
+                    out_ = L.matrix_pivot(A_)
                 else:
-                    L.matrix_determinant(op["A"])
+                    out_ = L.matrix_determinant(A_)
+                if op.get("how") == "mutate_result":
+                    # the caller owns what it was given: scribbling over a returned result must not reach into the library
+                    def scribble(x):
+                        if isinstance(x, list):
+                            for i_ in range(len(x)):
+                                if isinstance(x[i_], (list, tuple)):
+                                    scribble(x[i_])
+                                else:
+                                    x[i_] = 99.0
+                        elif isinstance(x, tuple):
+                            for y in x:
+                                scribble(y)
+                    scribble(out_)
+                    ctx.probe("caller_mutated_a_returned_result")
                 ctx.log("reject", "returned")
             except Exception as e:  # any rejection is fine; nothing is asserted about the faulted call
                 ctx.log("reject", type(e).__name__)
-            ctx.fault("rejected_input")
+            ctx.fault("rejected_input:" + op.get("how", "nonsquare"))
             ctx.ops_executed += 1
             continue
 
